@@ -107,121 +107,175 @@ def atf_rules(run, db):
                           'centred object, transfer functions with DC at %s -> centred image [%s]' % ('the centre' if shift else '[0,0]', par),
                           'apply_transfer_functions(shift=%s) returns %r for %s sizes (expected origin n//2, no ramp)%s: an all-ones transfer function is not the identity'
                           % (shift, v, par, '; spectra with different origins are multiplied' if mism else ''), f.loc())
-    # fold: every element multiplies the running spectrum exactly once
-    loops = [n for n in walk_no_nested(f.node) if isinstance(n, ast.For) and ast.unparse(n.iter) == 'tfs']
-    if len(loops) != 1:
-        raise AnalysisError('apply_transfer_functions: loop over tfs not found')
-    lp = loops[0]
-    tgt = ast.unparse(lp.target)
-    from .common import loop_carried
-    SPEC = loop_carried(lp)          # the running spectrum is what the loop carries from one transfer function to the next
-    mults = []
-    for st in lp.body:
-        if isinstance(st, ast.Assign) and isinstance(st.value, ast.BinOp) and isinstance(st.value.op, ast.Mult) and ast.unparse(st.targets[0]) in SPEC:
-            ops = {ast.unparse(st.value.left), ast.unparse(st.value.right)}
-            if ops == {ast.unparse(st.targets[0]), tgt}:
-                mults.append(st)
-        if isinstance(st, ast.AugAssign) and isinstance(st.op, ast.Mult) and ast.unparse(st.target) in SPEC and ast.unparse(st.value) == tgt:
-            mults.append(st)
-    ctl = [n for st in lp.body for n in ast.walk(st) if isinstance(n, (ast.Break, ast.Continue, ast.Return))]
-    run.check(len(mults) == 1 and not ctl and not lp.orelse, 'C15.fold', f.qual, 'running product', 'each transfer function multiplies the spectrum exactly once (top level of the loop, no break/continue)',
-              'the loop over tfs does not multiply the spectrum by each element exactly once (%d multiplications, %d control statements)' % (len(mults), len(ctl)), f.loc(lp))
+    # fold: the image is the inverse transform of (spectrum of the object) x (every transfer function, each exactly once) -- decided in
+    # NORM with the transforms as uninterpreted functions, shifts and the real part as identities (origins are decided above)
+    from .common import norm_interp
+    from ..core.norm import Rat
+    from ..core.interp import LambdaRef, Frame
+    for shift in (True, False):
+        for ntf, with_callable in ((1, False), (2, False), (3, False), (3, True)):
+            itn, domn = norm_interp(db)
+            oe = domn.call_ext
+
+            def call_ext(dotted, args, kwargs, node, domn=domn, oe=oe):
+                last = dotted.rsplit('.', 1)[-1]
+                if last in ('fftshift', 'ifftshift', 'real', 'asarray') and args and domn.rat(args[0]) is not None:
+                    return args[0]
+                if last in ('fft2', 'ifft2') and args and domn.rat(args[0]) is not None and len(args) == 1 and not kwargs:
+                    return domn.func_atom(last, [args[0]])
+                if dotted == 'builtins.callable' and args and domn.rat(args[0]) is not None:
+                    return Const(False)
+                return oe(dotted, args, kwargs, node)
+            domn.call_ext = call_ext
+            og = domn.getattr
+
+            def getattr_(v, name, node, domn=domn, og=og):
+                if name == 'real' and domn.rat(v) is not None:
+                    return v
+                return og(v, name, node)
+            domn.getattr = getattr_
+            lam = ast.parse('lambda: TLAST', mode='eval').body
+
+            def kw(domn=domn, ntf=ntf, with_callable=with_callable, lam=lam, shift=shift):
+                tfs = [domn.sym('T%d' % k) for k in range(ntf)]
+                if with_callable:
+                    tfs[-1] = LambdaRef(lam, Frame(f, f.module, {'TLAST': domn.sym('T%d' % (ntf - 1))}))
+                return {'obj': domn.sym('OBJ'), 'dx': domn.sym('dx'), 'tfs': Tup(tfs, 'list'), 'fx': Const(None), 'fy': Const(None), 'ft': Const(None), 'fr': Const(None), 'shift': Const(shift)}
+            res = [p for p in itn.run(f, kwargs=kw) if p.outcome == 'return']
+            if not res:
+                raise AnalysisError('apply_transfer_functions (fold, %d transfer functions): no returning path' % ntf)
+            Rn = domn.R
+            prod = Rat(Rn.func('fft2', [Rat(Rn.atom('OBJ'))]))
+            for k in range(ntf):
+                prod = prod * Rat(Rn.atom('T%d' % k))
+            want = Rat(Rn.func('ifft2', [prod]))
+            for p in res:
+                got = domn.rat(p.value)
+                run.check(got is not None and got == want, 'C15.fold', f.qual, 'running product (%d transfer functions%s, shift=%s)' % (ntf, ', last one callable' if with_callable else '', shift),
+                          'image == ifft2(fft2(object) * T_1 * ... * T_n): each transfer function multiplies the spectrum exactly once',
+                          'with %d transfer functions the image is %s, expected %s: a transfer function is skipped or applied more than once' % (ntf, got.key() if got is not None else repr(p.value), want.key()), f.loc())
 
 
 def grid_shape_rules(run, db):
     """Frequency grids handed to callable transfer functions broadcast to the shape of the spectrum they multiply,
-    whether the caller gives none, vectors, or the documented 2-D (M, N) grids."""
-    from ..domains.shape import ShapeDomain, Sh, Scalar, broadcast
-    from .common import block_as_function
+    whether the caller gives none, vectors, or the documented 2-D (M, N) grids -- decided by interpreting the whole routine in
+    the SHAPE domain with a callable transfer function that records the shapes it is called with."""
+    from ..domains.shape import ShapeDomain, Sh, Scalar, Dim, broadcast
+    from ..core.interp import Value
     f = db.func(CV + 'apply_transfer_functions')
-    blk = [n for n in f.node.body if isinstance(n, ast.If) and 'callable' in ast.unparse(n.test)]
-    if len(blk) != 1:
-        raise AnalysisError('apply_transfer_functions: the callable-grid block was not found')
-    fn, params = block_as_function(f, blk[0].body, ['fx', 'fy', 'fr', 'ft'], 'grids')
+
+    class TF(Value):
+        def __repr__(self):
+            return 'TF'
+
+    class Sig(Value):
+        pass
 
     def ft_unit(dom, fi, args, kwargs, node):
         n = args[1] if len(args) > 1 else kwargs.get('samples')
-        from ..domains.shape import Dim
         return Sh((n.n,)) if isinstance(n, Dim) else Sh(('?',))
     for label, gx, gy in (('no grids given', Const(None), Const(None)), ('vectors (N,), (M,)', Sh(('N',)), Sh(('M',))), ('2-D grids (M, N)', Sh(('M', 'N')), Sh(('M', 'N')))):
         dom = ShapeDomain({'prysm.fttools.forward_ft_unit': ft_unit})
+        seen = []
+        oe, oga = dom.call_ext, dom.getattr
+
+        def call_ext(dotted, args, kwargs, node, dom=dom, oe=oe):
+            last = dotted.rsplit('.', 1)[-1]
+            if dotted == 'builtins.callable' and args:
+                return Const(isinstance(args[0], TF))
+            if dotted == 'inspect.signature' and args and isinstance(args[0], TF):
+                return Sig()
+            if last in ('fft2', 'ifft2', 'fftshift', 'ifftshift', 'real') and args and isinstance(args[0], Sh):
+                return args[0]
+            return oe(dotted, args, kwargs, node)
+
+        def getattr_(v, name, node, oga=oga):
+            if isinstance(v, Sig) and name == 'parameters':
+                return Tup([Const('fx'), Const('fy'), Const('fr'), Const('ft')])
+            return oga(v, name, node)
+
+        def call_object(fobj, args, kwargs, node, seen=seen):
+            if isinstance(fobj, TF):
+                seen.append((list(args), dict(kwargs), node))
+                return Sh(('M', 'N'))
+            return None
+        dom.call_ext, dom.getattr, dom.call_object = call_ext, getattr_, call_object
         it = Interp(db, dom)
-        kw = {p_: Scalar() for p_ in params}
-        kw.update({'obj': Sh(('M', 'N')), 'fx': gx, 'fy': gy, 'fr': Const(None), 'ft': Const(None), 'dx': Scalar(), 'shift': Const(False)})
-        res = [p for p in it.run(fn, kwargs=lambda: dict(kw)) if p.outcome == 'return']
-        if not res:
-            raise AnalysisError('apply_transfer_functions grids (%s): no returning path' % label)
-        for p in res:
-            errs = [e for e in p.events if e['kind'] in ('broadcast-error', 'index-error')]
-            shapes = [v.dims if isinstance(v, Sh) else None for v in p.value.items]
-            ok = not errs and all(sh is not None for sh in shapes) and all(broadcast(sh, ('M', 'N')) == ('M', 'N') for sh in shapes) \
+        kw = {'obj': Sh(('M', 'N')), 'dx': Scalar(), 'tfs': Tup([TF()], 'list'), 'fx': gx, 'fy': gy, 'fr': Const(None), 'ft': Const(None), 'shift': Const(False)}
+        res = [p for p in it.run(f, kwargs=lambda: dict(kw)) if p.outcome == 'return']
+        if not res or not seen:
+            raise AnalysisError('apply_transfer_functions grids (%s): the callable transfer function is not reached' % label)
+        errs = [e for p in res for e in p.events if e['kind'] in ('broadcast-error', 'index-error')]
+        for args, kwargs, node in seen:
+            got = {k: (v.dims if isinstance(v, Sh) else None) for k, v in kwargs.items()}
+            shapes = [got.get(k) for k in ('fx', 'fy', 'fr', 'ft')]
+            ok = not errs and not args and all(sh is not None for sh in shapes) and all(broadcast(sh, ('M', 'N')) == ('M', 'N') for sh in shapes) \
                 and shapes[2] == ('M', 'N') and shapes[3] == ('M', 'N') and broadcast(shapes[0], shapes[1]) == ('M', 'N')
             run.check(ok, 'C15.grid', f.qual, 'grid shapes: ' + label, 'fx, fy broadcast to (M, N) and fr, ft have shape (M, N) [%s]' % label,
                       'with %s the grids handed to callable transfer functions have shapes fx=%s fy=%s fr=%s ft=%s; they must broadcast to the (M, N) spectrum (a wrong rank silently yields a 3-D "image")'
-                      % tuple([label] + shapes), f.loc(blk[0]))
+                      % tuple([label] + shapes), f.loc(node))
+        for p in res:
+            run.check(isinstance(p.value, Sh) and p.value.dims == ('M', 'N'), 'C15.grid', f.qual, 'image shape: ' + label, 'the image has the shape of the object',
+                      'the image has shape %r for an (M, N) object' % (getattr(p.value, 'dims', p.value),), f.loc())
 
 
 def inventory_rules(run, db):
     """Who may touch the data between the object and the image: the convolution routines transform, multiply and transform
     back on the array's OWN grid; the OTF products are the transform's modulus / angle / value divided by their DC sample."""
-    allowed = {
-        CV + 'conv': {'fft.fft2', 'fft.ifft2', 'fft.fftshift', 'fft.ifftshift'},
-        CV + 'apply_transfer_functions': {'fft.fft2', 'fft.ifft2', 'fft.fftshift', 'fft.ifftshift', 'any', 'callable', 'forward_ft_unit', 'optimize_xy_separable', 'cart_to_polar',
-                                          'inspect.signature'},
-    }
-    for q, ok_calls in allowed.items():
-        f = db.func(q)
-        local = {n.id for n in ast.walk(f.node) if isinstance(n, ast.Name) and isinstance(n.ctx, ast.Store)} | set(f.params)
-        extra = []
-        for c in walk_no_nested(f.node):
-            if isinstance(c, ast.Call):
-                t = ast.unparse(c.func)
-                if t in ok_calls or (isinstance(c.func, ast.Name) and c.func.id in local):
-                    continue          # a local name that is called is a user-supplied transfer function
-                extra.append(c)
-        run.check(not extra, 'C15.origin', f.qual, 'operations on the data', '%s only transforms, shifts and multiplies (calls: %s)' % (f.name, sorted(ok_calls)),
-                  '%s also calls `%s`: the result is no longer the circular convolution on the array\'s own grid / no longer linear in the object (resizing to another FFT length changes what wraps around; '
-                  'a modulus or clip breaks linearity)' % (f.name, ast.unparse(extra[0]) if extra else ''), f.loc(extra[0]) if extra else f.loc())
-        rets = [n for n in walk_no_nested(f.node) if isinstance(n, ast.Return) and n.value is not None]
-        names = {}
-        for n in walk_no_nested(f.node):
-            if isinstance(n, ast.Assign) and isinstance(n.targets[0], ast.Name):
-                names[n.targets[0].id] = n.value
-        okr = bool(rets)
-        for r in rets:
-            v = r.value
-            if isinstance(v, ast.Name) and v.id in names:
-                v = names[v.id]
-            # somewhere between the inverse transform and the return value the real part is taken (shifts commute with it)
-            has_real = any((isinstance(x, ast.Attribute) and x.attr == 'real' and any(isinstance(c, ast.Call) and ast.unparse(c.func).endswith('ifft2') for c in ast.walk(x.value))) or
-                           (isinstance(x, ast.Call) and ast.unparse(x.func) in ('np.real', 'numpy.real') and any(isinstance(c, ast.Call) and ast.unparse(c.func).endswith('ifft2') for c in ast.walk(x)))
-                           for x in ast.walk(v))
-            okr = okr and has_real
-        run.check(okr, 'C15.origin', f.qual, 'real part', 'the image is the REAL PART of the inverse transform (linear in the object, negative samples kept)',
-                  '%s does not return `.real` of the inverse transform on every path' % f.name, f.loc())
-    # OTF products: the returned array is written by its defining expression and the DC normalisation only
-    for nm in ('mtf_from_psf', 'ptf_from_psf', 'otf_from_psf'):
-        fi = db.func(OT + nm)
-        ctor = [c for c in walk_no_nested(fi.node) if isinstance(c, ast.Call) and ast.unparse(c.func) == 'RichData']
-        if len(ctor) != 1:
-            raise AnalysisError('%s: RichData(...) result not found' % nm)
-        dv = [k.value for k in ctor[0].keywords if k.arg == 'data']
-        if len(dv) != 1 or not isinstance(dv[0], ast.Name):
-            raise AnalysisError('%s: result array is not a plain name' % nm)
-        res = dv[0].id
-        writes = []
-        for n in walk_no_nested(fi.node):
-            if isinstance(n, ast.Assign):
-                for t in n.targets:
-                    if isinstance(t, ast.Subscript) and isinstance(t.value, ast.Name) and t.value.id == res:
-                        writes.append(n)
-            if isinstance(n, ast.AugAssign):
-                base = n.target.value if isinstance(n.target, ast.Subscript) else n.target
-                if isinstance(base, ast.Name) and base.id == res and not (isinstance(n.op, ast.Div) and isinstance(n.target, ast.Name)):
-                    writes.append(n)
-        run.check(not writes, 'C15.dc', fi.qual, 'no post-processing', 'the returned array is its defining expression divided by its DC sample, nothing else',
-                  '%s edits its result with `%s`: the product no longer equals the modulus / angle / value of the transform at those samples (OTF != MTF exp(i PTF) there)'
-                  % (nm, norm_stmt(writes[0]) if writes else ''), fi.loc(writes[0]) if writes else fi.loc())
+    # decided on the operations the interpretation actually performs on data-path arrays (helpers are followed): every library call
+    # that receives an array of the object/image chain must be a transform or a shift, and the real part is taken after the last inverse transform
+    DATA_OPS = {'fft2', 'ifft2', 'fftshift', 'ifftshift', 'real'}
+    from ..core.interp import LambdaRef, Frame
+
+    def contexts(q):
+        f_ = db.func(q)
+        out = []
+        for parity in (0, 1):
+            if q.endswith('conv'):
+                dom = _dom(parity)
+                out.append((dom, lambda dom=dom: {'obj': dom.centred(), 'psf': dom.centred()}, 'sizes %s' % ('odd' if parity else 'even')))
+            else:
+                for shift in (True, False):
+                    for with_callable in (False, True):
+                        dom = _dom(parity)
+                        tf_og = Og(ohalf(parity), Ix(0, 0, parity), 'freq') if shift else Og(Ix(0, 0, parity), Ix(0, 0, parity), 'freq')
+                        lam = ast.parse('lambda: T', mode='eval').body
+
+                        def kw(dom=dom, tf_og=tf_og, lam=lam, shift=shift, with_callable=with_callable):
+                            tfs = [tf_og, LambdaRef(lam, Frame(f_, f_.module, {'T': tf_og}))] if with_callable else [tf_og, tf_og]
+                            return {'obj': dom.centred(), 'dx': Real(), 'tfs': Tup(tfs, 'list'), 'fx': Const(None), 'fy': Const(None), 'ft': Const(None), 'fr': Const(None), 'shift': Const(shift)}
+                        out.append((dom, kw, 'shift=%s%s, %s' % (shift, ', callable' if with_callable else '', 'odd' if parity else 'even')))
+        return f_, out
+    for q in (CV + 'conv', CV + 'apply_transfer_functions'):
+        f, ctxs = contexts(q)
+        extra, noreal = {}, []
+        npaths = 0
+        for dom, kw, label in ctxs:
+            it = Interp(db, dom)
+            for p in it.run(f, kwargs=kw):
+                if p.outcome != 'return':
+                    continue
+                npaths += 1
+                last_inv = None
+                real_after = False
+                for k_, e in enumerate(p.events):
+                    if e['kind'] == 'extcall' and any(isinstance(a, Og) and a.kind != 'freqaxis' for a in e.get('args', [])):
+                        nm = e['name'].rsplit('.', 1)[-1]
+                        if nm not in DATA_OPS:
+                            extra.setdefault(e['name'], e.get('node'))
+                    if e['kind'] == 'fft' and e['which'].startswith('i'):
+                        last_inv, real_after = k_, False
+                    if e['kind'] == 'real' and last_inv is not None:
+                        real_after = True
+                if last_inv is None or not real_after:
+                    noreal.append(label)
+        if npaths == 0:
+            raise AnalysisError('%s: no returning path analysed' % q)
+        run.check(not extra, 'C15.origin', f.qual, 'operations on the data', '%s only transforms, shifts and multiplies the arrays of the object/image chain' % f.name,
+                  '%s also applies `%s` to the data: the result is no longer the circular convolution on the array\'s own grid / no longer linear in the object (resizing to another FFT length changes what wraps around; '
+                  'a modulus or clip breaks linearity)' % (f.name, sorted(extra)[0] if extra else ''), f.loc(extra[sorted(extra)[0]]) if extra and extra[sorted(extra)[0]] is not None else f.loc())
+        run.check(not noreal, 'C15.origin', f.qual, 'real part', 'the image is the REAL PART of the inverse transform (linear in the object, negative samples kept)',
+                  '%s does not take the real part of the inverse transform on the paths %s' % (f.name, noreal[:3]), f.loc())
 
 
 def otf_rules(run, db):
@@ -244,26 +298,83 @@ def otf_rules(run, db):
         d = v.items[0] if isinstance(v, Tup) else None
         run.check(isinstance(d, Og) and d.o == ohalf(parity) and d.r.is_zero(), 'C15.origin', f.qual, 'otf transform', 'centred PSF -> spectrum with DC at n//2 and no phase ramp [%s]' % par,
                   'transform_psf returns %r for %s sizes: the DC sample is not at n//2 (the index the MTF is normalised by) or a linear phase is left in the OTF' % (d, par), f.loc())
-    # the three products share the transform and the DC index (index value decided in C04.centre)
-    for nm in ('mtf_from_psf', 'ptf_from_psf', 'otf_from_psf'):
+    # the three products: modulus / angle / value of the transform, each divided by ITS OWN sample at one index computed from the
+    # shape (the value of that index is C04.centre's business) -- decided in NORM with transform_psf summarised
+    from .common import norm_interp, capture_calls
+    from ..core.norm import Rat
+    for nm, kind in (('mtf_from_psf', 'abs'), ('ptf_from_psf', 'angle'), ('otf_from_psf', 'value')):
         fi = db.func(OT + nm)
-        calls = [n for n in walk_no_nested(fi.node) if isinstance(n, ast.Call) and ast.unparse(n.func) == 'transform_psf']
-        norm = [n for n in walk_no_nested(fi.node) if isinstance(n, ast.AugAssign) and isinstance(n.op, ast.Div)]
-        # the index is a pair of locals computed from the shape of the transform (their values and axes are C04.centre's business)
-        idx = norm[0].value.slice if len(norm) == 1 and isinstance(norm[0].value, ast.Subscript) else None
-        idn = [e.id for e in idx.elts] if isinstance(idx, ast.Tuple) and len(idx.elts) == 2 and all(isinstance(e, ast.Name) for e in idx.elts) else []
-        from_shape = [n for n in walk_no_nested(fi.node) if isinstance(n, ast.Assign) and any(isinstance(x_, ast.Attribute) and x_.attr == 'shape' for x_ in ast.walk(n.value))
-                      and set(idn) <= {x_.id for t_ in n.targets for x_ in ast.walk(t_) if isinstance(x_, ast.Name)}]
-        ok = len(calls) == 1 and len(norm) == 1 and len(set(idn)) == 2 and bool(from_shape) and ast.unparse(norm[0].value.value) == ast.unparse(norm[0].target)
-        run.check(ok, 'C15.dc', fi.qual, 'DC normalisation', '%s divides by its own sample at [cy, cx]' % nm, '%s is not normalised by its own DC sample' % nm, fi.loc())
-    from ..core.pattern import match_all
-    fm = db.func(OT + 'mtf_from_psf')
-    okm = match_all(fm.node, ['V_d, V_df = transform_psf(psf, dx)', 'V_a = abs(V_d)', 'V_a /= V_a[V_i, V_j]', 'return RichData(data=V_a, dx=V_df, wavelength=None)'], ordered=True) is not None \
-        or match_all(fm.node, ['V_d, V_df = transform_psf(psf, dx)', 'V_a = np.abs(V_d)', 'V_a /= V_a[V_i, V_j]', 'return RichData(data=V_a, dx=V_df, wavelength=None)'], ordered=True) is not None
-    run.check(okm, 'C15.dc', fm.qual, 'modulus', 'MTF is the modulus of the transform', 'MTF is not abs(transform)', fm.loc())
-    fp = db.func(OT + 'ptf_from_psf')
-    okp = match_all(fp.node, ['V_d, V_df = transform_psf(psf, dx)', 'V_d /= V_d[V_i, V_j]', 'V_a = np.angle(V_d)', 'return RichData(data=V_a, dx=V_df, wavelength=None)'], ordered=True) is not None
-    run.check(okp, 'C15.dc', fp.qual, 'phase', 'PTF is the angle of the DC-normalised transform', 'PTF is not angle(transform)', fp.loc())
+        itn, domn = norm_interp(db)
+        oe, osub, oga = domn.call_ext, domn.subscript, domn.getattr
+
+        def call_ext(dotted, args, kwargs, node, domn=domn, oe=oe):
+            last = dotted.rsplit('.', 1)[-1]
+            if last in ('abs', 'absolute', 'angle') and len(args) == 1 and domn.rat(args[0]) is not None:
+                return domn.func_atom('abs' if last != 'angle' else 'angle', [args[0]])
+            if last in ('floor', 'ceil', 'int', 'round') and len(args) == 1 and domn.rat(args[0]) is not None:
+                return domn.func_atom(last, [args[0]])
+            return oe(dotted, args, kwargs, node)
+
+        def subscript(v, idx, node, domn=domn, osub=osub):
+            items = idx.items if isinstance(idx, Tup) else [idx]
+            if domn.rat(v) is not None and len(items) == 2 and all(domn.rat(x) is not None for x in items):
+                return domn.func_atom('sample', [v] + list(items))
+            return osub(v, idx, node)
+
+        def getattr_(v, name, node, domn=domn, oga=oga):
+            if name == 'shape' and domn.rat(v) is not None:
+                return Tup([domn.sym('ROWS'), domn.sym('COLS')])
+            return oga(v, name, node)
+        edits = []
+
+        def store_subscript(target, idx, val, node, domn=domn, edits=edits):
+            if domn.rat(target) is not None:
+                edits.append(node)
+                return True
+            return None
+        domn.call_ext, domn.subscript, domn.getattr, domn.store_subscript = call_ext, subscript, getattr_, store_subscript
+        paths, tcalls = capture_calls(itn, domn, fi, lambda: {'psf': domn.sym('PSF'), 'dx': domn.sym('dx')}, {OT + 'transform_psf'}, lambda f_, b_: Tup([domn.sym('DATA'), domn.sym('DF')]))
+        rets = [p_ for p_ in paths if p_.outcome == 'return' and isinstance(p_.value, Obj)]
+        if len(rets) != 1 or len(tcalls) != 1:
+            raise AnalysisError('%s: expected one path with one transform, got %d / %d' % (nm, len(rets), len(tcalls)))
+        got = domn.rat(rets[0].value.attrs.get('data'))
+        Rn = domn.R
+        D = Rat(Rn.atom('DATA'))
+        X = Rat(Rn.func('abs', [D])) if kind == 'abs' else D
+        def all_atoms(r_, acc):
+            for a_ in r_.atoms():
+                if a_ not in acc:
+                    acc.add(a_)
+                    inf = Rn.info.get(a_)
+                    if inf:
+                        for x_ in inf[1]:
+                            if isinstance(x_, Rat):
+                                all_atoms(x_, acc)
+            return acc
+        samples = [a for a in (all_atoms(got, set()) if got is not None else []) if a.startswith('sample(')]
+        ok = False
+        detail = got.key() if got is not None else repr(rets[0].value.attrs.get('data'))
+        if got is not None:
+            for a in samples:
+                info = Rn.info.get(a)
+                if not info or info[0] != 'sample':
+                    continue
+                arr = info[1][0]
+                idx_atoms = set().union(*[x.atoms() for x in info[1][1:]]) if len(info[1]) == 3 else {'?'}
+                own = isinstance(arr, Rat) and arr == X
+                from_shape = idx_atoms and all(('ROWS' in t_ or 'COLS' in t_) for t_ in idx_atoms)
+                quot = X / Rat(Rn.atom(a))
+                want = Rat(Rn.func('angle', [quot])) if kind == 'angle' else quot
+                if own and from_shape and got == want:
+                    ok = True
+        run.check(ok, 'C15.dc', fi.qual, 'DC normalisation', '%s == %s of the transform divided by its own sample at an index computed from the shape'
+                  % (nm, {'abs': 'modulus', 'angle': 'angle', 'value': 'value'}[kind]),
+                  '%s returns %s: not the %s of the transform normalised by its own DC sample' % (nm, detail, {'abs': 'modulus', 'angle': 'angle (of the DC-normalised transform)', 'value': 'value'}[kind]), fi.loc())
+        run.check(not edits, 'C15.dc', fi.qual, 'no post-processing', 'the returned array is its defining expression divided by its DC sample, nothing else',
+                  '%s overwrites samples of its result (`%s`): the product no longer equals the modulus / angle / value of the transform at those samples (OTF != MTF exp(i PTF) there)'
+                  % (nm, norm_stmt(edits[0]) if edits else ''), fi.loc(edits[0]) if edits else fi.loc())
+        dfv = domn.rat(rets[0].value.attrs.get('dx'))
+        run.check(dfv is not None and dfv.key() == 'DF', 'C15.dc', fi.qual, 'frequency spacing', 'the product carries the frequency spacing of the transform', '%s does not carry the frequency spacing of the transform' % nm, fi.loc())
     # DC index value for both parities (the C04 centre rule applied to the three products)
     c04.centre_sites(run, db, rule='C15.dc', only=[OT + 'mtf_from_psf', OT + 'ptf_from_psf', OT + 'otf_from_psf'])
 
